@@ -59,7 +59,7 @@ m = {
  "hooks": {
    "guard": "futures_buffered_verif",
    "enable": "RUSTFLAGS=\"--cfg futures_buffered_verif [--cfg futures_buffered_verif_model]\" (set by /verif/check for cargo kani and for the native replayer; hook bodies live in /verif/hooks and are pulled in by #[path] child modules)",
-   "baseline_off_cmd": "cd /repo && cargo test --workspace --no-fail-fast --offline",
+   "baseline_off_cmd": "cd /repo && cargo test --workspace --no-fail-fast --offline --lib --tests",
    "source_commits": hook_commits,
    "add_only": True,
  },
